@@ -210,7 +210,8 @@ Let kv2 := put_all sec (combine (nseq 0 BloomBitLength) (gen_vectors bl)) kv1.
 Lemma put_index_ok : put_bloom_index kv1 bl sec = Some kv2.
 Proof.
   unfold put_bloom_index. rewrite bl_length, N.eqb_refl.
-  change (BloomBitsBlocks mod 8 =? 0) with true. cbn [negb]. unfold kv2, put_all. reflexivity.
+  change (BloomBitsBlocks mod 8 =? 0) with true. cbn [negb].
+  change (zN (put_index_bound (Z.of_N BloomBitLength))) with BloomBitLength. unfold kv2, put_all. reflexivity.
 Qed.
 
 Lemma kv2_bloom k : kv_get kv2 (bloom_key k) = kv_get kv1 (bloom_key k).
@@ -485,6 +486,19 @@ Proof.
   - apply (logs_bloom_complete K6 _ l x Hin Hx).
 Qed.
 
+Theorem block_bloom_complete_evm lops st : N.of_nat (length (blocks_of lops)) <= U32 ->
+  (forall h txs, nth_error (blocks_of lops) (N.to_nat h) = Some txs -> h < adh -> all_logs txs = []) ->
+  lrun K6 adh lops = Some st ->
+  forall h txs, nth_error (blocks_of lops) (N.to_nat h) = Some txs ->
+  forall l x, In l (all_logs txs) -> In x (log_items l) ->
+  exists b, get_bloom_data (kv st) h = Some b /\ bloom_test K6 x b = true.
+Proof.
+  intros Hl Hevm Hr h txs Hn l x Hin Hx.
+  destruct (N.ltb_spec h adh) as [Hlt|Hge].
+  - rewrite (Hevm h txs Hn Hlt) in Hin. destruct Hin.
+  - exact (block_bloom_complete lops st Hl Hr h txs Hn Hge l x Hin Hx).
+Qed.
+
 (** end to end: for a block inside an indexed section, the three vectors the matcher consults for
     an address or topic of one of its logs have the block's bit set *)
 Theorem index_never_misses lops st : N.of_nat (length (blocks_of lops)) <= U32 ->
@@ -509,3 +523,15 @@ Proof.
   - exfalso. apply (index_exists ops st Wo Hl' Hr s p); [rewrite B, map_length; exact Hsec|lia|exact Hpl|exact Ev].
 Qed.
 End Hist.
+
+Theorem keys_distinct h h' i s i' s' :
+  h < U32 -> h' < U32 -> i < 65536 -> i' < 65536 -> s < U32 -> s' < U32 ->
+  (bloom_key h = bloom_key h' -> h = h') /\
+  (bloom_bits_key i s = bloom_bits_key i' s' -> i = i' /\ s = s') /\
+  bloom_key h <> bloom_bits_key i s.
+Proof.
+  intros Hh Hh' Hi Hi' Hs Hs'. split; [|split].
+  - apply bloom_key_inj; assumption.
+  - apply bits_key_inj; assumption.
+  - apply bloom_key_ne_bits_key.
+Qed.
